@@ -158,7 +158,17 @@ def process_state():
         'decimal': str(decimal.getcontext()),
         'sigint': signal.getsignal(signal.SIGINT) is signal.default_int_handler,
         'root-logger': (logging.root.level, len(logging.root.handlers), logging.root.disabled, logging.raiseExceptions),
+        # what threading.enumerate() / active_count() show the application: entries for threads that have ended must be gone
+        'threads': sorted(type(t).__name__ for t in threading.enumerate() if t is not threading.current_thread() and
+                          (isinstance(t, threading._DummyThread) or t.name.startswith('host-'))),
     }
+
+
+def forget_dummy_threads():
+    """Harness hygiene before a run: entries left in the threading module by earlier runs are not this run's."""
+    for k, t in list(threading._active.items()):
+        if isinstance(t, threading._DummyThread):
+            threading._active.pop(k, None)
 
 
 class NoRun:
@@ -169,6 +179,7 @@ class NoRun:
 def bare(name):
     lo = progs.load(name)
     inject(lo)
+    forget_dummy_threads()
     run = NoRun()
     try:
         run.result = lo.ns['main']()
@@ -242,6 +253,7 @@ def run_with_agent(name, triggers, journal=None, push_fail_at=None, push_exc=Non
     import deep.api.tracepoint.trigger as TR
     lo = progs.load(name)
     inject(lo)
+    forget_dummy_threads()
     j = journal or rig.Journal()
     plugins = [rig.RecLogger(j), rig.RecSpanProcessor(j), rig.RecMetric(j), rig.RecDecorator(j)]
     agent = rig.Agent(plugins=plugins, journal=j)
